@@ -14,7 +14,7 @@ func init() {
 		Explanation: "Decides that every blocking primitive in the package has an escape that the teardown paths actually trigger: each blocking select has an arm on a channel that a teardown role closes (Session.shutdownCh, Stream.closeNotifyCh, listener.closeCh, ctx.Done()) or on a timer armed in the same function; every bare channel send/receive, WaitGroup.Wait and sleep is classified in a frozen table with its reason and side-condition (closer exists and is once-guarded; counterpart event guaranteed); " +
 			"Session.Close wakes every stream (closes each notify channel under the stream lock) and closes shutdownCh before it posts the teardown; every transition of a stream away from opened closes its notify channel (directly, or through the close routine for the deferred local close); readMore re-checks buffered data before the first wait and after every wake-up and arms/stops the deadline timer; Flush's queue-full retry loop is bounded by a constant. " +
 			"NOT decided: every timing claim (never early, within a bounded time) and lost-notification schedules between entering the wait and the event.",
-		RuleText: "R11.1 census of every select/send/receive/Wait/Sleep instruction of the package, each classified (a) select with escape arm, (b) receive on a channel closed by a teardown role, (c) paired protocol event, (d) listed exception; closers verified; R11.2 ordering in Session.Close; R11.3 per CAS leaving streamOpened; R11.4 per wake-up arm of readMore; R11.5 loop bound of Flush; R11.6 re-arming of one-shot timers that are awaited again in a loop.",
+		RuleText: "R11.1 census of every select/send/receive/Wait/Sleep instruction of the package, each classified (a) select with escape arm, (b) receive on a channel closed by a teardown role, (c) paired protocol event, (d) listed exception; closers verified; R11.2 ordering in Session.Close; R11.3 per CAS leaving streamOpened; R11.4 per wake-up arm of readMore; R11.5 loop bound of Flush; R11.6 re-arming of one-shot timers that are awaited again in a loop; R11.7 every timer arm belongs to a timer that was armed before the wait.",
 		Run:      runC11,
 	})
 }
@@ -274,6 +274,7 @@ func runC11(p *P, r *R) {
 	c11ReadMore(p, r)
 	c11FlushBound(p, r)
 	r.count("R11.6", "one-shot timers awaited in loops", timerRearmed(p, r, "R11.6", nil), 1)
+	c11TimersArmed(p, r)
 }
 
 func chanNameAddr(p *P, v ssa.Value) string {
@@ -591,4 +592,38 @@ func timerRearmed(p *P, r *R, rule string, only func(f *ssa.Function) bool) int 
 		})
 	}
 	return n
+}
+
+// R11.7: a timer that a blocking select relies on is armed before the wait: it is the result of
+// time.NewTimer, or a Reset of that very timer dominates the select (pooled timers are handed out stopped).
+func c11TimersArmed(p *P, r *R) {
+	n := 0
+	for _, f := range p.fnList {
+		allInstrs(f, func(in ssa.Instruction) {
+			sel, ok := in.(*ssa.Select)
+			if !ok || !sel.Blocking {
+				return
+			}
+			for _, st := range sel.States {
+				fa, okf := loadOfField(st.Chan)
+				if !okf || fieldKey(fa) != "Timer.C" {
+					continue
+				}
+				tm := fa.X
+				n++
+				armed := false
+				if c, okc := tm.(*ssa.Call); okc && p.calleeName(&c.Call) == "time.NewTimer" {
+					armed = true
+				}
+				for _, ri := range findInstrs(f, p.mCall("(*time.Timer).Reset")) {
+					if sameExpr(ri.(*ssa.Call).Call.Args[0], tm, 4) && instrDominates(ri, sel) {
+						armed = true
+					}
+				}
+				r.ob("R11.7", p.fname(f)+": the timer a wait relies on is armed before the wait", p.ipos(sel), armed, true,
+					"a stopped (pooled) timer never fires: the wait loses its time bound")
+			}
+		})
+	}
+	r.count("R11.7", "timer arms of blocking selects", n, 5)
 }
